@@ -42,9 +42,23 @@ def parity_rule(ctx, rid):
             if nm == callee:
                 return {k.arg: k.value for k in c.keywords if k.arg}, c
         raise AnalysisError("anchor lost: %s -> %s" % (f.qualname, callee))
-    direct, _ = kw(rc, TO_DS)
-    outer, _ = kw(rr_, CROP + ".Crop.reap_combos_to_ds")
+    direct, dcall = kw(rc, TO_DS)
+    outer, ocall = kw(rr_, CROP + ".Crop.reap_combos_to_ds")
     inner, icall = kw(rds, TO_DS)
+    for nm_, d_, c_ in (("Runner.run_combos", direct, dcall), ("Crop.reap_runner", outer, ocall), ("Crop.reap_combos_to_ds", inner, icall)):
+        splats = [k for k in c_.keywords if k.arg is None]
+        lacking = [p for p in PARITY if p not in d_]
+        if splats and lacking:
+            # labelling parameters travel in a keyword mapping: follow a local dict display, else give up
+            for k in splats:
+                dd = single_def(rc if c_ is dcall else rr_ if c_ is ocall else rds, k.value.id) if isinstance(k.value, ast.Name) else None
+                lit = shared.dict_literal(dd[1]) if dd else None
+                if isinstance(lit, ast.Dict):
+                    for kk, vv in zip(lit.keys, lit.values):
+                        if isinstance(kk, ast.Constant) and kk.value in PARITY and kk.value not in d_:
+                            d_[kk.value] = vv
+            if [p for p in PARITY if p not in d_]:
+                raise AnalysisError("idiom changed: %s hands the labelling parameters %s on through a keyword mapping that is not a local dict display" % (nm_, [p for p in PARITY if p not in d_]))
     for p in PARITY:
         dw = _field_words(direct[p]) if p in direct else set()
         if p not in inner:
@@ -178,11 +192,16 @@ def persistence_rule(ctx, rid):
         rr.bad(ctx.finding(rid, verdict[1], verdict[2], "save_info no longer pickles a *copy* of the farmer with its function cleared (the live farmer loses fn, or the function is pickled with plain pickle)", construct="farmer-copy"), "farmer copy")
     lf = crop.methods["load_function"]
     ctx.touch(lf)
-    txt = " ".join(norm(s) for s in lf.node.body)
-    if "self.farmer.fn = self._fn" in txt and "from_pickle(read_from_disk(" in txt:
+    from .plots import method_text
+    txt = method_text(ctx, lf, depth=2)
+    stores_fn = [x for m_ in [lf] + [crop.methods[c_.func.attr] for c_ in ast.walk(lf.node) if isinstance(c_, ast.Call) and isinstance(c_.func, ast.Attribute) and norm(c_.func.value) == "self" and c_.func.attr in crop.methods]
+                 for x in ast.walk(m_.node) if isinstance(x, ast.Assign) and norm(x.targets[0]).endswith("farmer.fn")]
+    if stores_fn and all(norm(x.value) in ("self._fn", "self.fn") or (isinstance(x.value, ast.Name)) for x in stores_fn) and "from_pickle(read_from_disk(" in txt:
         rr.ok("load_function re-attaches the loaded function to the farmer")
-    else:
+    elif not stores_fn:
         rr.bad(ctx.finding(rid, lf, lf.node, "load_function no longer re-attaches the loaded function to the farmer", construct="reattach-fn"), "reattach")
+    else:
+        raise AnalysisError("idiom changed: how load_function re-attaches the function (%s)" % [norm(x)[:40] for x in stores_fn])
     sy = crop.methods["_sync_info_from_disk"]
     gs = build_cfg(sy.node)
     ctx.touch(sy, gs)
@@ -380,6 +399,11 @@ def sow_constants_rule(ctx, rid):
     calls = [c for nd, c, nm in all_calls(ctx, rrn) if nm == CROP + ".Crop.reap_combos_to_ds"]
     need(calls, "anchor lost: reap_runner -> reap_combos_to_ds")
     cv = arg(calls[0], None, "constants")
+    if cv is None and any(k.arg is None for k in calls[0].keywords):
+        from .plots import _splat_value
+        cv = _splat_value(rrn, calls[0], "constants")
+        if cv is None:
+            raise AnalysisError("idiom changed: reap_runner hands the labelling options on through a keyword mapping that is not a local dict display")
     txt = norm(cv) if cv is not None else ""
     expanded = txt
     todo, seen_n = list(names_in(cv)) if cv is not None else [], set()
